@@ -249,6 +249,31 @@ func sanitizeGen(tier string, r *rng, emit func(string)) {
 	for i := 0; i < nRand; i++ {
 		emit("s;" + cfgs[r.intn(4)] + ";" + hx(randName()))
 	}
+	// multi-byte runes: a sanitiser looking at runes instead of bytes (or at a truncated rune) would accept
+	// some of them; every 2-byte rune, and runes whose low code point byte is an identifier character
+	for cp := 0x80; cp < 0x800; cp++ {
+		emit("s;00;" + hx(string(rune(cp))))
+		emit("s;01;" + hx("a"+string(rune(cp))+".gr"))
+	}
+	nRune := 3000
+	if thorough {
+		nRune = 60000
+	}
+	for i := 0; i < nRune; i++ {
+		cp := 0x800 + r.intn(0x10FFFF-0x800)
+		if r.intn(2) == 0 { // low byte in [A-Za-z0-9_]
+			low := "abcxyzAZ019_"[r.intn(12)]
+			cp = (cp &^ 0xff) | int(low)
+		}
+		if cp >= 0xD800 && cp < 0xE000 {
+			continue
+		}
+		n := string(rune(cp))
+		if r.intn(2) == 0 {
+			n = "k" + n + "9"
+		}
+		emit("s;" + cfgs[r.intn(4)] + ";" + hx(n))
+	}
 	// --- real file system
 	fLen := 3
 	nF := 1500
@@ -268,7 +293,7 @@ func sanitizeGen(tier string, r *rng, emit func(string)) {
 	// names that aim at the sentinels and at existing files
 	aimed := []string{"ok", "ok.gr", "", ".gr", "../secret", "../secret.gr", "../sib/secret.gr", "sub/secret", "sub/secret.gr",
 		"./ok.gr", "ok.gr/", "/ok", "..", ".", "sub", "sub.gr", "secret", "..\\secret.gr", "ok\x00.gr", "ok.gr\x00", "~/ok.gr",
-		"ok.gr.gr", "ok.gr.gr.gr", ".gr.gr", "OK", "Ok.gr", "ok .gr", " ok", "grol.png", "grol", "\x80ok"}
+		"ok.gr.gr", "ok.gr.gr.gr", ".gr.gr", "OK", "Ok.gr", "ok .gr", " ok", "grol.png", "grol", "\x80ok", "\u2261", "\u0131.gr", "o\u2261k"}
 	for _, n := range aimed {
 		for _, c := range restricted {
 			for _, op := range []string{"save", "load"} {
